@@ -25,6 +25,7 @@ WITNESS = {
     "standin_workers": ("src/code_generator/mod.rs", "20 programs covering every operator class x workers {2,3,4,8} vs 1 worker, 42-edge graph"),
     "standin_value_laws": ("src/value/mod.rs", "all pairs and triples of ~85 representative values (strings <= 41 chars, vectors <= 33 elements) and ~100 tuples of length <= 2"),
     "standin_rewrites": ("src/optimizer/mod.rs", "26 programs x 7 optimizer configurations x 4 engine instances, 4 small relations"),
+    "standin_value_roundtrip": ("src/storage_engine/mod.rs", "14 relations (one per value kind, Nulls in typed columns, vectors, 4 mixed-kind) x {WAL replay, save + restart}"),
     "standin_delete": ("src/storage_engine/mod.rs", "relations of 0..300 tuples x 7 delete batches mixing present/absent/repeated tuples"),
     "standin_histories_clean": ("src/storage_engine/mod.rs", "every clean insert/delete history of length <= 5 over 2 tuples, save, restart"),
     "standin_histories_dirty": ("src/storage_engine/mod.rs", "every history of length <= 3 over 2 tuples with a re-insert or an absent delete, save, restart"),
